@@ -7,6 +7,8 @@ import (
 	"math/rand"
 	"reflect"
 	"runtime"
+	"sort"
+	"sync"
 	"testing"
 
 	"github.com/0xPolygon/cdk-contracts-tooling/contracts/fep/etrog/polygonzkevmbridge"
@@ -62,6 +64,22 @@ var (
 	c20Bridge    = common.HexToAddress("0xB7098a13a48EcE087d3DA15b2D28eCE0f89819B8")
 	c20RevertMsg = "execution reverted"
 )
+
+// c20FailMsgs are error texts the go-ethereum call tracer puts into a failed frame (core/vm errors):
+// a frame with any of them had its state changes discarded, exactly like an explicit revert
+var c20FailMsgs = []string{
+	"execution reverted", "out of gas", "invalid opcode: INVALID", "write protection", "stack underflow (0 <=> 2)",
+	"invalid jump destination", "execution reverted", "contract address collision", "max call depth exceeded",
+	"insufficient balance for transfer", "return data out of bounds", "gas uint64 overflow",
+}
+
+// c20FailSeen: error texts seen on failed frames addressed to the bridge (evidence)
+var c20FailSeen sync.Map
+
+func c20FailMsg(k int) *string {
+	s := c20FailMsgs[k%len(c20FailMsgs)]
+	return &s
+}
 
 func c20Method(a *abi.ABI, id string) abi.Method {
 	m, err := a.MethodById(common.Hex2Bytes(id))
@@ -143,6 +161,9 @@ func c20CountBridge(f *c20Frame) (n int, reverted int, maxDepth int) {
 		}
 		if x.Error != nil {
 			reverted++
+			if x.To == c20Bridge {
+				c20FailSeen.Store(*x.Error, true)
+			}
 		}
 		if d > maxDepth {
 			maxDepth = d
@@ -282,7 +303,7 @@ func TestC20(t *testing.T) {
 				frames[k] = c20Other(g)
 			}
 			if lab >= 3 {
-				frames[k].Error = &c20RevertMsg
+				frames[k].Error = c20FailMsg(i + k)
 			}
 			if e.shape[k] >= 0 {
 				frames[e.shape[k]].Calls = append(frames[e.shape[k]].Calls, frames[k])
@@ -326,7 +347,7 @@ func TestC20(t *testing.T) {
 					f = c20Other(g)
 				}
 				if g.Intn(6) == 0 {
-					f.Error = &c20RevertMsg
+					f.Error = c20FailMsg(g.Intn(1 << 20))
 				}
 				if depth < 6 {
 					for k := g.Intn(5 - min(depth, 3)); k > 0; k-- {
@@ -342,6 +363,13 @@ func TestC20(t *testing.T) {
 			c20Check(r, fmt.Sprintf("rand/%d/%d", w, i), root, target, "rand")
 		}
 	})
+	var texts []string
+	c20FailSeen.Range(func(k, _ any) bool { texts = append(texts, k.(string)); return true })
+	sort.Strings(texts)
+	r.Set("error_texts_on_failed_bridge_frames", texts)
+	if len(texts) < 5 && !r.Replaying() {
+		r.Inconclusive("fewer than 5 distinct failure texts reached a frame addressed to the bridge")
+	}
 	r.Sample(map[string]any{"shape": "root(other) -> [reverted wrapper -> bridge claim(index=event index)]", "expected": "error, nothing recorded"})
 	finish(t, r, r.N(40, 60), "ex/match*", "ex/none*", "rand/match*", "rand/none*")
 }
